@@ -1054,3 +1054,79 @@ Definition strict_stmt (C : cfg) (reg : registry) (T : skt) (ph : string) (s : s
 
 Definition strict (C : cfg) (reg : registry) (D : program) (T : skt) : bool :=
   forallb (fun ps => forallb (strict_stmt C reg T (fst ps)) (snd ps)) D.
+
+(* ------------------------------------------------------------------ well-formedness, assigned variables *)
+
+Definition is_nil {A} (l : list A) : bool := match l with [] => true | _ => false end.
+
+(* what pymbolic can hand over: a product has at least one factor *)
+Fixpoint wf_expr (e : expr) : bool :=
+  match e with
+  | EConst _ | EVar _ => true
+  | EProd l => negb (is_nil l) && forallb wf_expr l
+  | ESum l | EAnd l | EOr l | EMin l | EMax l => forallb wf_expr l
+  | EQuot a b | EPow a b | ECmp _ a b | ESub a b => wf_expr a && wf_expr b
+  | ENot a => wf_expr a
+  | ECall _ args _ => forallb wf_expr args
+  end.
+
+Definition wf_stmt (s : stmt) : bool :=
+  match s with
+  | SAssign _ _ rhs _ => wf_expr rhs
+  | SCall _ _ args _ => forallb wf_expr args
+  | SOther => true
+  end.
+
+Definition wf_program (D : program) : bool := forallb (fun ps => forallb wf_stmt (snd ps)) D.
+
+(* the variables a statement assigns as a whole (an element store `a[i] <- e` does not count) *)
+Definition assigns (s : stmt) (x : string) : Prop :=
+  match s with
+  | SAssign y false _ _ => y = x
+  | SCall xs _ _ _ => In x xs
+  | _ => False
+  end.
+
+(* ------------------------------------------------------------------ side conditions of the soundness theorem *)
+
+(* a variable whose entry is an array or a user type is not also assigned a scalar (unify lets the
+   aggregate kind win, so the scalar value would not inhabit the entry) *)
+Definition agg_ok (T : skt) (ph x : string) (k : kind) : bool :=
+  match lookup T ph x with
+  | Some (Some (KArray _)) | Some (Some (KUser _)) => negb (scalar_kind (Some k))
+  | _ => true
+  end.
+
+Fixpoint aggs_ok (T : skt) (ph : string) (xs : list string) (ks : list kind) : bool :=
+  match xs, ks with
+  | x :: xs', k :: ks' => agg_ok T ph x k && aggs_ok T ph xs' ks'
+  | _, _ => true
+  end.
+
+Definition sides_stmt (C : cfg) (reg : registry) (T : skt) (ph : string) (s : stmt) : bool :=
+  let G := sg T in
+  let L := local_of T ph in
+  match s with
+  | SAssign x has_sub rhs loops =>
+      has_sub ||
+      (forallb (fun i => agg_ok T ph i KInt) loops &&
+       match kind_of (kmap C reg G L rhs) with
+       | Some k => agg_ok T ph x k
+       | None => false
+       end && side_ok C reg G L rhs)
+  | SCall xs f args kwn =>
+      match kcall reg f (map (kmap C reg G L) args) kwn with
+      | Ok ks => aggs_ok T ph xs ks
+      | Err _ => false
+      end && forallb (side_ok C reg G L) args && call_ok C reg G L f args kwn
+  | SOther => true
+  end.
+
+(* the operand discipline (side_ok, call_ok) for every statement under the FINAL table, and no scalar
+   assigned to a variable that also holds an array / user-type value *)
+Definition sides (C : cfg) (reg : registry) (D : program) (T : skt) : bool :=
+  forallb (fun ps => forallb (sides_stmt C reg T (fst ps)) (snd ps)) D.
+
+(* the interpreter's own persistence test (run_single_step) *)
+Definition keep_of (exact prefixes : list string) (x : string) : bool :=
+  existsb (String.eqb x) exact || existsb (fun p => String.prefix p x) prefixes.
